@@ -13,9 +13,13 @@ inductive MK where
   | other
 deriving Repr, BEq
 
-def classify (m : String) : MK :=
+/-- On the disk back-end a `store` has two fault points: before anything happens (`store`) and
+after the scope directory exists but before the value is written (`store_after_mkdir`); the
+value is in the store only when both were passed.  `twoPoint` says whether the log has them. -/
+def classify (twoPoint : Bool) (m : String) : MK :=
   match m.splitOn ":" with
-  | kind :: rest =>
+  | kind0 :: rest =>
+    let kind := if twoPoint then (if kind0 == "store" then "store_pre" else if kind0 == "store_after_mkdir" then "store" else kind0) else kind0
     let path := ":".intercalate rest
     let segs := path.splitOn "/"
     match kind, segs with
@@ -98,7 +102,8 @@ def step (st : St) (ws : List String) (j : Json) : St × String :=
   match ws with
   | "faultcut" :: mode :: domain :: _ =>
     let muts := (jarr (jget j "muts")).map jstr
-    let mks := muts.map classify
+    let twoPoint := muts.any (·.startsWith "store_after_mkdir:")
+    let mks := muts.map (classify twoPoint)
     let cut := jnat (jget j "cut")
     let kind := opKind ws
     let firstClaim := (mks.findIdx? (· == .claim)).getD mks.length
